@@ -188,7 +188,24 @@ class Unit:
         return cmd
 
     def run_proof(self, proof, extra_defs=(), extra_flags=(), tag=''):
+        """tool-side failures (external solver hiccup, crash, memory) are retried: once as specified, then with the built-in back ends.
+        A timeout is not retried. None of this can turn a failed obligation into a pass: only runs that END WITH A VERDICT are parsed."""
         gb = self.build_proof(proof, extra_defs)
+        last = None
+        for attempt in range(3):
+            p2 = dict(proof)
+            if attempt == 2:
+                p2['checks'] = _strip_external(proof.get('checks', []))
+                p2['solver'] = 'portfolio'
+            try:
+                return self._run_proof_once(p2, gb, extra_flags, tag)
+            except Undecided as e:
+                last = e
+                if 'timeout' in str(e):
+                    break
+        raise last
+
+    def _run_proof_once(self, proof, gb, extra_flags=(), tag=''):
         cmd = self.cbmc_cmd(proof, gb, extra_flags)
         outp = os.path.join(self.work, f"{proof['name']}{tag}.cbmc.json")
         solver = proof.get('solver', 'minisat')
@@ -206,6 +223,20 @@ class Unit:
         except Exception as e:
             raise Undecided(f"unit {self.name}/{proof['name']}: no parsable cbmc output (rc={rc}, likely memory limit): {err[-500:]}")
         return parse_cbmc(res, rc, self.name, proof['name'], dt, ' '.join(cmd))
+
+
+def _strip_external(checks):
+    out = []
+    skip = False
+    for c in checks:
+        if skip:
+            skip = False
+            continue
+        if c in ('--external-sat-solver', '--sat-solver'):
+            skip = True
+            continue
+        out.append(c)
+    return out
 
 
 def normalise_desc(d):
